@@ -1171,6 +1171,44 @@ def gen_skeleton():
 TARGETS.append(("Skeleton", gen_skeleton))
 
 
+def changed_functions():
+    """Names of the functions whose structural skeleton in the CURRENT source differs from the recorded one
+    (lean/AriVerif/Spec/Skeleton.lean) — used to aim the fine-grained exploration at what changed.  Empty when nothing did."""
+    try:
+        spec = open(os.path.join(C.LEAN, "AriVerif", "Spec", "Skeleton.lean"), encoding="utf-8").read()
+    except OSError:
+        return set()
+    recorded = {}
+    for m in re.finditer(r'^\s*\[?\("([A-Za-z_][A-Za-z0-9_.]*)", \[(.*?)\]\)[,\]]*\s*$', spec, re.M):
+        recorded[m.group(1)] = re.findall(r'"((?:[^"\\]|\\.)*)"', m.group(2))
+    out = set()
+    trees = {}
+    try:
+        for g, specs in GROUPS.items():
+            for rel, cls, fns in specs:
+                if rel not in trees:
+                    trees[rel] = parse(rel)[0]
+                c = find_class(trees[rel], cls)
+                if c is None:
+                    continue
+                for f in c.body:
+                    if isinstance(f, ast.FunctionDef) and (fns is ALL or f.name in fns):
+                        key = "%s.%s" % (cls, f.name)
+                        try:
+                            sk = skeleton(f)
+                        except Unsupported:
+                            out.add(f.name)
+                            continue
+                        if key in recorded and recorded[key] != sk:
+                            out.add(f.name)
+                            out |= {n.name for n in ast.walk(f) if isinstance(n, ast.FunctionDef)}
+                        elif key not in recorded and fns is ALL:
+                            out.add(f.name)
+    except (Unsupported, SyntaxError):
+        pass
+    return out
+
+
 if __name__ == "__main__":
     import json
     print(json.dumps(regenerate(), indent=1))
